@@ -386,6 +386,8 @@ def generate(rng, opts):
         case["mutate_source"] = gen_source_mutation(rng, fm.render(prog))
     # comments (no meaning; their text may mention the string words)
     case["comments"] = rng.choice([1, 2, 3]) if rng.random() < 0.08 else 0
+    # a newline instead of a blank between the two words of a declaration or an input accessor
+    case["newlines"] = rng.random() < 0.05
     # user words called while the program is paused: [number of the pause, word]
     case["calls_at_pause"] = [[rng.choice([1, 1, 2, 3]), rng.choice(prog["defs"])[0]] for _ in range(rng.randint(0, 2))] \
         if prog["defs"] else []
@@ -620,6 +622,11 @@ def execute(node, case, rec, opts):
         src = {1: '( a note: strings are written with ." text" or s" text" )\n',
                2: '\\ prints with ." later\n',
                3: '( outer ( inner s" ) still a comment ." )\n'}[case["comments"]] + src
+    if case.get("newlines"):
+        import re
+        src = re.sub(r"^(variable|input|output) ", r"\1\n", src, flags=re.M)
+        src = re.sub(r"\b(x\d+) (len|pos|end|seek|skip)\b", r"\1\n\2", src)
+        src = re.sub(r"\b(v\d+|c\d+) (!|\+!|@)(?=\s)", r"\1\n\2", src)
     if case.get("mutate_source"):
         return execute_illformed(node, case, rec, apply_source_mutation(src, case["mutate_source"]))
     srcb = src.encode("latin-1")
